@@ -12,6 +12,7 @@ for kind in breaking silent; do
  for p in "$V"/variants/$kind/*/*.patch; do
   [ -e "$p" ] || continue
   prop=$(basename "$(dirname "$p")"); id=$(basename "$p" .patch)
+  case "$prop" in C[0-9][0-9]) ;; *) continue;; esac   # R* corpora: tools/silent_all.sh
   if [ $# -gt 0 ]; then m=0; for a in "$@"; do case "$prop/$id" in *$a*) m=1;; esac; done; [ $m = 1 ] || continue; fi
   (cd "$T/repo" && git checkout -q . && git apply "$p") || { echo "$kind $prop/$id: PATCH-DOES-NOT-APPLY"; continue; }
   props=$prop
